@@ -4,7 +4,7 @@
 # applies to /repo HEAD in a scratch worktree and the given tests pass with it. Stores patch + notes
 # under /verif/seeded/refactor-<name>/ (meta.json with no expected rule: every check must stay silent).
 name=$1; shift
-src=/tmp/refout/$name
+src=${REFOUT:-/tmp/refout}/$name; tag=${TWINTAG:-refactor}
 wt=/tmp/seedconf/ref-$name
 mkdir -p /tmp/seedconf
 git -C /repo worktree add -q --detach $wt HEAD || exit 3
@@ -15,13 +15,13 @@ fi
 git reset -q
 res=$(PYTHONPATH=$wt/src timeout 3000 /venv/bin/python -m pytest -q -p no:cacheprovider -n 8 "$@" 2>&1 | tail -1)
 echo "tests: $res"
-mkdir -p /verif/seeded/refactor-$name
-git diff > /verif/seeded/refactor-$name/patch.diff
-cp $src/notes.md /verif/seeded/refactor-$name/notes.md 2>/dev/null
+mkdir -p /verif/seeded/$tag-$name
+git diff > /verif/seeded/$tag-$name/patch.diff
+cp $src/notes.md /verif/seeded/$tag-$name/notes.md 2>/dev/null
 clean=$(echo "$res" | sed 's/\x1b\[[0-9;]*m//g')
-cat > /verif/seeded/refactor-$name/meta.json <<EOM
+cat > /verif/seeded/$tag-$name/meta.json <<EOM
 {
- "id": "refactor-$name",
+ "id": "$tag-$name",
  "source": "independent sub-agent asked for 8-12 strictly behaviour-preserving refactorings of one module (routine clean-up), given only a scratch worktree of /repo",
  "property": null,
  "change": "behaviour-preserving refactorings (see notes.md)",
